@@ -109,6 +109,11 @@ struct Ctx {
     void fold(uint64_t v) { digest = mix(digest, v); }
     void cls(const std::string &c) { classes.insert(c); }
     // report a violation: key identifies the predicate+operation class (line numbers / values stripped)
+    // records a violation but lets the case continue (used for findings that must not hide later checks)
+    void soft_fail(const std::string &key, const std::string &detail) {
+        for (auto &f : fails) if (f.first == key) return;
+        fails.emplace_back(key, detail);
+    }
     void fail(const std::string &key, const std::string &detail) {
         fails.emplace_back(key, detail);
         if (stop_on_fail) throw CaseFailed();
